@@ -36,10 +36,42 @@ def _mk_solver(timeout_ms):
     return s
 
 
+ABSTRACT = [None]   # None | 'first' | 'only': string abstraction (pv/abstr.py) tried before / instead of the string theory
+
+
+def abstract_unsat(formulas, timeout_ms):
+    """True iff the string-abstracted query is unsat (then so is the original one); anything else -> False."""
+    from pv import abstr
+    t0 = time.time()
+    try:
+        fs = abstr.abstract(formulas)
+    except abstr.Unsupported as e:
+        STATS['abs_unsupported'] = STATS.get('abs_unsupported', 0) + 1
+        if os.environ.get('PV_TRACE_ABS'):
+            print('abstraction unsupported:', e)
+        return False
+    s = _mk_solver(timeout_ms)
+    for f in fs:
+        s.add(f)
+    r = s.check()
+    STATS['abs_time'] = STATS.get('abs_time', 0.0) + time.time() - t0
+    STATS['abs_queries'] = STATS.get('abs_queries', 0) + 1
+    if r == z3.unsat:
+        STATS['abs_unsat'] = STATS.get('abs_unsat', 0) + 1
+        return True
+    return False
+
+
 def check_sat(formulas, timeout_ms=None, want_model=False, use_cvc5=True):
     """-> (verdict, model_or_None, seconds, backend) with verdict in sat/unsat/unknown."""
     timeout_ms = timeout_ms or Z3_TIMEOUT_MS
     STATS['queries'] += 1
+    if ABSTRACT[0]:
+        t0 = time.time()
+        if abstract_unsat(formulas, timeout_ms):
+            return 'unsat', None, time.time() - t0, 'z3-abs'
+        if ABSTRACT[0] == 'only':
+            return 'unknown', None, time.time() - t0, 'z3-abs'
     s = _mk_solver(timeout_ms)
     for f in formulas:
         s.add(f)
@@ -145,6 +177,8 @@ def feasible(formulas, timeout_ms=400):
         timeout_ms = min(timeout_ms, FEAS_MS)
     """Path pruning only: quantified facts are left out and 'unknown' counts as feasible
     (sound: more paths are explored, never fewer)."""
+    if ABSTRACT[0]:
+        return not abstract_unsat([f for f in formulas if not has_quant(f)], timeout_ms)
     s = _mk_solver(timeout_ms)
     for f in formulas:
         if not has_quant(f):
